@@ -53,6 +53,14 @@ RULE_SCHED = ("each run is one seeded schedule+workload drawn from the choice ta
               "fired faults, fired events) among non-trivial runs")
 
 CHECKS = {
+    "C07": {
+        "claim": "same simulated sessions as C06 biased to capability traffic (the same capability sent repeatedly, partial Releases, Finish with releaseResultCaps before or after the Return, Returns with releaseParamCaps, local AddRef/Release of imports racing with newly arriving references); conservation is checked from the wire history: peer reference counts never go negative, a Release never exceeds the references actually delivered, application capabilities are not released while the peer holds a reference and the connection is open, after an orderly wind-down every table is empty and every capability released, and after Close each capability has been released exactly once",
+        "engine": "rpcsim", "level": "exploration",
+        "budget": {"quick": 30, "thorough": 900},
+        "rule": RULE_SCHED,
+        "faults": ["ctx_cancel", "app_release"],
+        "params": {"mode": "caps"},
+    },
     "C06": {
         "claim": "seeded search over schedules and message timings of one real rpc.Conn against a spec-following model peer (Bootstrap, Calls to imports and to promised answers that have or have not returned, Finish before or after Return, Release) and 0-2 local caller tasks; a protocol monitor over the two-directional message history checks exactly one Return per question with the content the application produced, exactly-once resolution of local calls with the peer's result, no question id reuse before its Finish, and per-target delivery order",
         "engine": "rpcsim", "level": "exploration",
